@@ -18,7 +18,7 @@ from harness.core import q, qlist, qmat, Case, guarded, ImplError
 from harness.props import c01
 
 PI2 = 2 * np.pi
-RULE = ('cases = (function, record, dt, periods (with/without leading 0, on both sides of 6*dt and exactly at 6*dt for dyadic dt), xi, container kind list/tuple/array, min_dt_ratio in {1,2,4,8}); '
+RULE = ('cases = (function, record, dt, periods (with/without leading 0, on both sides of 6*dt and exactly at 6*dt for dyadic dt), xi, container kind list/tuple/array, min_dt_ratio in {1,2,4,8}); true_response_spectra also with xi exactly 0 (int and float) on constant-acceleration / pulse records with T up to 40 durations; object histories: record changed between two reads, and two gen_response_spectrum calls (or a lazy read, then a call) on one object with a larger min_dt_ratio the second time and T_min/20 < dt; '
         'spectra compared at 1e-13 with the Q-model applied to the implementation\'s own response_series rows; object-level: refinement factor compared exactly, interpolated record at 1e-13, '
         'spectra at 1e-13 on rows of the refined record, and S_d(object) >= S_d(raw); energy spectra at 1e-12 of the sum of absolute terms; final input energy >= 0 evaluated on outputs (known finding); '
         'non-finite outputs are violations; non-trivial = record not identically zero')
@@ -172,8 +172,52 @@ def run(rep, rng, tier):
             coq = 'KTrue %s %s %s %s %s %s %s %s %s %s' % (q(dt), qlist(periods), qlist(rec), qmat(u), qmat(v), qmat(a), qlist(sd), qlist(sv), qlist(sa), q(1e-13))
         add(coq, site, args, nz=bool(np.any(rec != 0)), impl=[list(sd), list(sv), list(sa)])
 
+    # ---- true spectra of the UNDAMPED oscillator (xi exactly 0, passed as int 0 or 0.0) on forced responses: the true S_v is
+    # max|v| of the response series, which differs from the pseudo velocity w*max|u| (e.g. a constant acceleration shorter than
+    # T/4: max|v| = sin(w t_end)/w, w*max|u| = (1 - cos(w t_end))/w), and the true S_a is max|a_total| of the series
+    for k in range(6 * N):
+        dt = rng.choice([0.01, 0.005, 0.02, 0.25, 0.125])
+        shape = k % 3
+        if shape == 0:       # constant acceleration, oscillators much longer than the record (response still growing at the end)
+            n = rng.randint(8, 120)
+            rec = np.ones(n) * rng.choice([1.0, -1.0, 2.0, 0.5])
+            dur = (n - 1) * dt
+            periods = sorted(dur * rng.uniform(4.5, 40) for _ in range(rng.randint(1, 4)))
+            if rng.random() < 0.5:
+                periods = periods + [dt * rng.uniform(8, 60)]
+        elif shape == 1:     # one-sided pulse followed by free vibration / any record of the C01 generator
+            n = rng.randint(12, 120)
+            m = rng.randint(2, n - 1)
+            rec = np.array([float(rng.choice([1, 2, -1]))] * m + [0.0] * (n - m))
+            periods = [dt * 10 ** rng.uniform(math.log10(7), math.log10(2e3)) for _ in range(rng.randint(1, 4))]
+        else:
+            rec = record(120)
+            periods = gen_periods(rng, dt, False, False)
+        if rng.random() < 0.3:
+            periods = [0.0] + list(periods)
+        periods = [float(P) for P in periods]
+        if fragile_cut(periods, dt):
+            fragile += 1
+            continue
+        xi0 = [0, 0.0][k % 2]
+        cont = rng.choice(list(CONT))
+        site = 'sdof.true_response_spectra[xi=%r,%s]' % (xi0, cont)
+        args = {'dt': dt, 'xi': xi0, 'periods': periods, 'values': list(map(float, rec))}
+        rows = guarded(sdof.response_series, rec, dt, np.array(periods, dtype=float), 0.0)
+        out = guarded(sdof.true_response_spectra, rec, dt, CONT[cont](periods), xi0)
+        if isinstance(rows, ImplError) or isinstance(out, ImplError):
+            viol(site, args, rows if isinstance(rows, ImplError) else out)
+            continue
+        if not finite(*out):
+            viol(site, args, 'non-finite output %r' % (out,))
+            continue
+        u, v, a = map(m2, rows)
+        sd, sv, sa = (np.array(x, dtype=float) for x in out)
+        coq = 'KTrue %s %s %s %s %s %s %s %s %s %s' % (q(dt), qlist(periods), qlist(rec), qmat(u), qmat(v), qmat(a), qlist(sd), qlist(sv), qlist(sa), q(1e-13))
+        add(coq, site, args, nz=bool(np.any(rec != 0)), impl=[list(sd), list(sv), list(sa)])
+
     # ---- object level: AccSignal.s_d / s_v / s_a through gen_response_spectrum(min_dt_ratio)
-    for k in range(30 * N):
+    for k in range(30 * N + 6 * N):
         rec = record(80)
         dt = rng.choice([0.25, 0.125, 0.01, 0.02, 0.005])
         ratio = rng.choice([1, 2, 4, 8])
@@ -196,6 +240,36 @@ def run(rep, rng, tier):
         # spectra are read again (lazily): they must be those of the current record
         mutate = rng.random() < 0.4
         how = rng.choice(['reset_values', 'add_constant+add_series', 'add_series'])
+        # the last 6*N cases: ONE object answers twice for the same record, periods and damping; the second call asks for a
+        # larger min_dt_ratio (or: the spectra are first read lazily = ratio 4, then gen_response_spectrum(min_dt_ratio=8)),
+        # with T_min/20 < dt so that the ratio decides the integration step: the spectra are those of the LAST call's step
+        first = None
+        if k >= 30 * N:
+            mutate, mode = False, 0
+            j = k - 30 * N
+            if j % 3 == 2:
+                first, ratio = 'lazy', 8
+            else:
+                ratio = rng.choice([2, 4, 8])
+                first = rng.choice([r for r in (1, 2, 4) if r < ratio])
+            r1 = 4 if first == 'lazy' else first
+            # T_min/20 < dt/r1 for 5 bases in 6: the step of the first call is then dt/r1 and the second call's is finer
+            bases = [b for b in (1.0, 1.2, 2.0, 2.5, 3.0, 5.0, 6.0, 7.0, 9.0, 10.0, 13.0, 15.0) if b * r1 < 20]
+            base = dt * (rng.choice(bases) if rng.random() < 5 / 6 else rng.choice([10.0, 13.0, 15.0, 19.0]))
+            periods = sorted([base] + [base * rng.uniform(1, 30) for _ in range(rng.randint(0, 3))])
+            if lead0:
+                periods = [0.0] + periods
+            if fragile_cut(periods, dt):
+                fragile += 1
+                continue
+            minp = base
+            xi_kw = [{}, {'xi': 0.05}][(j // 3) % 2]
+            what = 'read s_a (lazy, default min_dt_ratio 4)' if first == 'lazy' else 'gen_response_spectrum(%smin_dt_ratio=%d)' % ('xi=0.05, ' if xi_kw else '', first)
+            site = 'AccSignal.s_d/s_v/s_a[gen_response_spectrum(min_dt_ratio); second call on the object, larger min_dt_ratio]'
+            args = {'dt': dt, 'min_dt_ratio': ratio, 'periods': periods, 'values': list(map(float, rec)),
+                    'history': ['construct', what, 'gen_response_spectrum(%smin_dt_ratio=%d)' % ('xi=0.05, ' if xi_kw else '', ratio), 'read s_d, s_v, s_a'],
+                    'refinement_factor_first_call': exact_factor(dt, 4 if first == 'lazy' else first, minp),
+                    'refinement_factor_second_call': exact_factor(dt, ratio, minp)}
         if mutate:
             mode, ratio = 1, 4
             site = 'AccSignal.s_d/s_v/s_a[read; %s; read again]' % how
@@ -220,6 +294,13 @@ def run(rep, rng, tier):
                 else:
                     s.add_constant(-1.0)
                     s.add_series(rec * 0.5)
+            elif first is not None:
+                s = eqsig.AccSignal(rec, dt, response_times=np.array(periods))
+                if first == 'lazy':
+                    _ = s.s_a
+                else:
+                    s.gen_response_spectrum(min_dt_ratio=first, **xi_kw)
+                s.gen_response_spectrum(min_dt_ratio=ratio, **xi_kw)
             elif mode == 0:
                 s = eqsig.AccSignal(rec, dt, response_times=np.array(periods))
                 s.gen_response_spectrum(min_dt_ratio=ratio)
